@@ -845,6 +845,40 @@ pub fn gen(rng: &mut Rng, thorough: bool, em: &mut Emitter) {
             emit_all(em, &zs, payload, &cat, &server, &mm, rng.chance(1, 2));
         }
     }
+    // 7. CNAMEs leaving a zone whose apex has several labels, to targets with fewer, as many and more
+    //    labels than the apex (the re-run lookup of a CNAME target must be the *checked* one: an
+    //    unchecked lookup panics on names shorter than the apex — C01 / C06)
+    {
+        let apex = lname(&[b"z", b"y", b"x"]);
+        let mut recs = vec![
+            Rec { owner: apex.clone(), ty: 6, ttl: 60, rdata: soa_rdata(&apex, 10) },
+            Rec { owner: apex.clone(), ty: 2, ttl: 60, rdata: prefixed(b"ns", &apex) },
+        ];
+        let targets: Vec<Vec<u8>> = vec![
+            vec![0], lname(&[b"out"]), lname(&[b"q", b"x"]), lname(&[b"a", b"b", b"c"]), lname(&[b"w", b"y", b"x"]),
+            lname(&[b"a", b"b", b"c", b"d"]), lname(&[b"y", b"x"]), lname(&[b"x"]),
+        ];
+        let mut owners = Vec::new();
+        for (i, t) in targets.iter().enumerate() {
+            let o = prefixed(format!("c{}", i).as_bytes(), &apex);
+            recs.push(Rec { owner: o.clone(), ty: 5, ttl: 20, rdata: t.clone() });
+            // … and one in-zone link in front of it
+            let o2 = prefixed(format!("d{}", i).as_bytes(), &apex);
+            recs.push(Rec { owner: o2.clone(), ty: 5, ttl: 20, rdata: o.clone() });
+            owners.push(o);
+            owners.push(o2);
+        }
+        let zs = vec![ZoneCfg { kind: 'L', apex: apex.clone(), class: 1, glue_wide: false, recs }];
+        if let Some(server) = make_server(&zs, 1232) {
+            let cat = enc_catalog(&zs);
+            for o in &owners {
+                for qtype in [1u16, 5, 255, 28] {
+                    let m = query(rng.next() as u16, o, qtype, 1, if rng.chance(1, 3) { Some(1232) } else { None });
+                    emit_all(em, &zs, 1232, &cat, &server, &m, false);
+                }
+            }
+        }
+    }
     // 3. CNAME chains around the limit
     for len in 0..=10usize {
         for end in 0..6usize {
